@@ -1,4 +1,635 @@
 /- Helper lemmas for `resolve_requirements`. -/
 import Vet.Spec.Demand
 namespace Vet
+
+/-! ### bitmask facts -/
+
+theorem orAll_foldl_testBit (l : List CSet) (acc : CSet) (b : Nat) :
+    (l.foldl (· ||| ·) acc).testBit b = true ↔
+      acc.testBit b = true ∨ ∃ x ∈ l, x.testBit b = true := by
+  induction l generalizing acc with
+  | nil => simp
+  | cons a rest ih =>
+    simp only [List.foldl_cons, ih, Nat.testBit_or, Bool.or_eq_true, List.mem_cons,
+      exists_eq_or_imp, or_assoc]
+
+theorem orAll_testBit (l : List CSet) (b : Nat) :
+    (orAll l).testBit b = true ↔ ∃ x ∈ l, x.testBit b = true := by
+  simp [orAll, orAll_foldl_testBit]
+
+theorem orAll_map_testBit {α : Type} (l : List α) (f : α → CSet) (b : Nat) :
+    (orAll (l.map f)).testBit b = true ↔ ∃ q ∈ l, (f q).testBit b = true := by
+  rw [orAll_testBit]
+  constructor
+  · rintro ⟨x, hx, hb⟩
+    rcases List.mem_map.1 hx with ⟨q, hq, rfl⟩
+    exact ⟨q, hq, hb⟩
+  · rintro ⟨q, hq, hb⟩
+    exact ⟨f q, List.mem_map.2 ⟨q, hq, rfl⟩, hb⟩
+
+theorem CSet.sub_refl (a : CSet) : CSet.sub a a := fun _ h => h
+
+theorem CSet.sub_trans {a b c : CSet} (h₁ : CSet.sub a b) (h₂ : CSet.sub b c) : CSet.sub a c :=
+  fun i h => h₂ i (h₁ i h)
+
+theorem CSet.sub_antisymm {a b : CSet} (h₁ : CSet.sub a b) (h₂ : CSet.sub b a) : a = b := by
+  apply Nat.eq_of_testBit_eq
+  intro i
+  have h1 := h₁ i
+  have h2 := h₂ i
+  cases ha : a.testBit i <;> cases hb : b.testBit i <;> simp_all
+
+/-! ### `setAt` -/
+
+theorem setAt_length (l : List CSet) (i : Nat) (f : CSet → CSet) :
+    (setAt l i f).length = l.length := by
+  simp [setAt]
+
+theorem setAt_getD (l : List CSet) (i j : Nat) (f : CSet → CSet) :
+    (setAt l i f).getD j 0 =
+      if j = i ∧ j < l.length then f (l.getD j 0) else l.getD j 0 := by
+  simp only [setAt, List.getD_eq_getElem?_getD, List.getElem?_map, List.getElem?_zipIdx]
+  by_cases hj : j < l.length
+  · simp only [List.getElem?_eq_getElem hj, Option.map_some, Option.getD_some, Nat.zero_add, hj,
+      and_true]
+  · simp [hj]
+
+/-! ### `fromList` / `cl` -/
+
+theorem cl_of_ok {m : Mapper} {l : List Nat} {s : CSet} (h : m.fromList l = .ok s) :
+    m.cl l = s := by
+  simp [Mapper.cl, h]
+
+/-! ### `pushDeps` -/
+
+theorem or_or_self (x e : Nat) : x ||| e ||| e = x ||| e := by
+  rw [Nat.or_assoc, Nat.or_self]
+
+theorem pushDeps_spec (g : DepGraph) (m : Mapper) (pe : Option PolicyEntry) (dflt : CSet)
+    (ds : List Nat) (req req' : List CSet) (h : pushDeps g m pe dflt ds req = .ok req') :
+    req'.length = req.length ∧
+    ∀ j, req'.getD j 0 =
+      if j ∈ ds ∧ j < req.length then req.getD j 0 ||| edgeDemand g m pe j dflt
+      else req.getD j 0 := by
+  induction ds generalizing req with
+  | nil =>
+    simp only [pushDeps] at h
+    cases h
+    simp
+  | cons d ds ih =>
+    simp only [pushDeps] at h
+    have key : ∀ c, c = edgeDemand g m pe d dflt →
+        pushDeps g m pe dflt ds (setAt req d (· ||| c)) = .ok req' →
+        req'.length = req.length ∧
+        ∀ j, req'.getD j 0 =
+          if j ∈ d :: ds ∧ j < req.length then req.getD j 0 ||| edgeDemand g m pe j dflt
+          else req.getD j 0 := by
+      intro c hc h2
+      obtain ⟨hl, hv⟩ := ih _ h2
+      rw [setAt_length] at hl hv
+      refine ⟨hl, fun j => ?_⟩
+      rw [hv j, setAt_getD]
+      subst hc
+      by_cases hjd : j = d
+      · subst hjd
+        by_cases hlt : j < req.length <;> by_cases hm : j ∈ ds <;> simp [hlt, hm, or_or_self]
+      · simp [hjd]
+    split at h
+    · rename_i l hov
+      split at h
+      · cases h
+      · rename_i c hc
+        refine key c ?_ h
+        simp only [edgeDemand, DepGraph.node, defaultNode, hov, cl_of_ok hc]
+    · rename_i hov
+      refine key dflt ?_ h
+      simp only [edgeDemand, DepGraph.node, defaultNode, hov]
+
+/-! ### `devLoop` -/
+
+theorem node_append (g : DepGraph) (pre : List PkgNode) (p : PkgNode) (ps : List PkgNode)
+    (hg : g.nodes = pre ++ p :: ps) : g.node pre.length = p := by
+  simp [DepGraph.node, hg]
+
+theorem devDemand_of_ok (g : DepGraph) (pol : Policy) (m : Mapper) (q : Nat) (c : CSet)
+    (h : critOrDefault m ((g.policyOf pol q).bind (·.devCriteria)) 0 = .ok c) :
+    devDemand g pol m q = c := by
+  simp only [critOrDefault] at h
+  simp only [devDemand]
+  split at h <;> rename_i hx <;> simp only [hx, cl_of_ok h]
+
+theorem devLoop_spec (g : DepGraph) (pol : Policy) (m : Mapper) (ps : List PkgNode)
+    (pre : List PkgNode) (req req' : List CSet) (hg : g.nodes = pre ++ ps)
+    (h : devLoop g pol m ps req = .ok req') :
+    req'.length = req.length ∧
+    ∀ j b, (req'.getD j 0).testBit b = true ↔
+      (req.getD j 0).testBit b = true ∨
+      ∃ q, pre.length ≤ q ∧ q < g.nodes.length ∧ j ∈ (g.node q).devDeps ∧ j < req.length ∧
+        (edgeDemand g m (g.policyOf pol q) j (devDemand g pol m q)).testBit b = true := by
+  induction ps generalizing pre req with
+  | nil =>
+    simp only [devLoop] at h
+    cases h
+    refine ⟨rfl, fun j b => ?_⟩
+    simp only [List.append_nil] at hg
+    constructor
+    · exact Or.inl
+    · rintro (h | ⟨q, h1, h2, _⟩)
+      · exact h
+      · rw [hg] at h2; omega
+  | cons p ps ih =>
+    have hp : g.node pre.length = p := node_append g pre p ps hg
+    have hg' : g.nodes = (pre ++ [p]) ++ ps := by simp [hg]
+    have hlen : g.nodes.length = pre.length + 1 + ps.length := by simp [hg]; omega
+    simp only [devLoop] at h
+    split at h
+    · rename_i hemp
+      obtain ⟨hl, hv⟩ := ih (pre ++ [p]) req hg' h
+      refine ⟨hl, fun j b => ?_⟩
+      rw [hv j b]
+      simp only [List.length_append, List.length_cons, List.length_nil]
+      constructor
+      · rintro (h | ⟨q, h1, h2⟩)
+        · exact Or.inl h
+        · exact Or.inr ⟨q, by omega, h2⟩
+      · rintro (h | ⟨q, h1, h2, h3, h4⟩)
+        · exact Or.inl h
+        · by_cases hq : q = pre.length
+          · subst hq
+            rw [hp] at h3
+            simp only [List.isEmpty_iff] at hemp
+            simp [hemp] at h3
+          · exact Or.inr ⟨q, by omega, h2, h3, h4⟩
+    · rename_i hemp
+      split at h
+      · cases h
+      · rename_i devC hdev
+        split at h
+        · cases h
+        · rename_i req1 hpush
+          have hpe : pol.get p.name p.ver = g.policyOf pol pre.length := by
+            simp only [DepGraph.policyOf, hp]
+          rw [hpe] at hdev hpush
+          have hdd := devDemand_of_ok g pol m pre.length devC hdev
+          subst hdd
+          obtain ⟨hl1, hv1⟩ := pushDeps_spec g m _ _ _ _ _ hpush
+          obtain ⟨hl, hv⟩ := ih (pre ++ [p]) req1 hg' h
+          refine ⟨by rw [hl, hl1], fun j b => ?_⟩
+          rw [hv j b, hv1 j, hl1]
+          simp only [List.length_append, List.length_cons, List.length_nil]
+          constructor
+          · rintro (h | ⟨q, h1, h2⟩)
+            · split at h
+              · rename_i hc
+                simp only [Nat.testBit_or, Bool.or_eq_true] at h
+                rcases h with h | h
+                · exact Or.inl h
+                · exact Or.inr ⟨pre.length, Nat.le_refl _, by omega, by rw [hp]; exact hc.1, hc.2, h⟩
+              · exact Or.inl h
+            · exact Or.inr ⟨q, by omega, h2⟩
+          · rintro (h | ⟨q, h1, h2, h3, h4, h5⟩)
+            · left
+              split
+              · simp only [Nat.testBit_or, h, Bool.true_or]
+              · exact h
+            · by_cases hq : q = pre.length
+              · subst hq
+                rw [hp] at h3
+                left
+                rw [if_pos ⟨h3, h4⟩]
+                simp only [Nat.testBit_or, h5, Bool.or_true]
+              · exact Or.inr ⟨q, by omega, h2, h3, h4, h5⟩
+
+/-! ### components of `ruleRhs` -/
+
+/-- the dev-dependency component of `ruleRhs` -/
+def devVal (g : DepGraph) (pol : Policy) (m : Mapper) (p : Nat) : CSet :=
+  orAll (((List.range g.nodes.length).filter (fun q => (g.node q).devDeps.contains p)).map
+    (fun q => edgeDemand g m (g.policyOf pol q) p (devDemand g pol m q)))
+
+/-- the normal/build component of `ruleRhs` -/
+def nbVal (g : DepGraph) (pol : Policy) (m : Mapper) (D : Nat → CSet) (p : Nat) : CSet :=
+  orAll ((g.topo.filter (fun q => (g.node q).normalBuildDeps.contains p)).map
+    (fun q => edgeDemand g m (g.policyOf pol q) p (D q)))
+
+theorem devVal_testBit (g : DepGraph) (pol : Policy) (m : Mapper) (p b : Nat) :
+    (devVal g pol m p).testBit b = true ↔
+      ∃ q, q < g.nodes.length ∧ p ∈ (g.node q).devDeps ∧
+        (edgeDemand g m (g.policyOf pol q) p (devDemand g pol m q)).testBit b = true := by
+  simp only [devVal, orAll_map_testBit, List.mem_filter, List.mem_range, List.contains_iff_mem,
+    and_assoc]
+
+theorem nbVal_testBit (g : DepGraph) (pol : Policy) (m : Mapper) (D : Nat → CSet) (p b : Nat) :
+    (nbVal g pol m D p).testBit b = true ↔
+      ∃ q, q ∈ g.topo ∧ p ∈ (g.node q).normalBuildDeps ∧
+        (edgeDemand g m (g.policyOf pol q) p (D q)).testBit b = true := by
+  simp only [nbVal, orAll_map_testBit, List.mem_filter, List.contains_iff_mem, and_assoc]
+
+theorem ruleRhs_eq (g : DepGraph) (pol : Policy) (m : Mapper) (D : Nat → CSet) (p : Nat) :
+    ruleRhs g pol m D p =
+      match (g.policyOf pol p).bind (·.criteria) with
+      | some c => m.cl c
+      | none => (if (g.node p).isRoot then m.cl [1] else 0) ||| nbVal g pol m D p ||| devVal g pol m p :=
+  rfl
+
+theorem devLoop_init (g : DepGraph) (pol : Policy) (m : Mapper) (req : List CSet)
+    (h : devLoop g pol m g.nodes (List.replicate g.nodes.length 0) = .ok req) :
+    req.length = g.nodes.length ∧
+    ∀ j b, (req.getD j 0).testBit b = true ↔ j < g.nodes.length ∧ (devVal g pol m j).testBit b = true := by
+  obtain ⟨hl, hv⟩ := devLoop_spec g pol m g.nodes [] _ req (by simp) h
+  simp only [List.length_replicate] at hl hv
+  refine ⟨hl, fun j b => ?_⟩
+  rw [hv j b, devVal_testBit]
+  have h0 : (List.replicate g.nodes.length 0).getD j 0 = 0 := by
+    simp only [List.getD_eq_getElem?_getD, List.getElem?_replicate]
+    split <;> rfl
+  simp only [h0, Nat.zero_testBit, Bool.false_eq_true, false_or, List.length_nil, Nat.zero_le, true_and]
+  constructor
+  · rintro ⟨q, h1, h2, h3, h4⟩
+    exact ⟨h3, q, h1, h2, h4⟩
+  · rintro ⟨h3, q, h1, h2, h4⟩
+    exact ⟨q, h1, h2, h3, h4⟩
+
+
+/-! ### the parents-first order -/
+
+theorem nodup_reverse' (l : List Nat) (h : l.Nodup) : l.reverse.Nodup := by
+  rw [List.Nodup, List.pairwise_reverse]
+  exact h.imp (fun hab => Ne.symm hab)
+
+/-- parents-first order: the reversed `topo`. -/
+structure RevOK (g : DepGraph) (L : List Nat) : Prop where
+  nodup : L.Nodup
+  order : ∀ done i todo, L = done ++ i :: todo → ∀ d ∈ (g.node i).normalBuildDeps, d ∈ todo
+
+theorem ValidTopo.revOK {g : DepGraph} (hv : ValidTopo g) : RevOK g g.topo.reverse where
+  nodup := nodup_reverse' _ hv.nodup
+  order := by
+    intro done i todo hL d hd
+    have ht : g.topo = todo.reverse ++ i :: done.reverse := by
+      have := congrArg List.reverse hL
+      simpa using this
+    have := hv.order _ _ _ ht d hd
+    simpa using this
+
+theorem RevOK.dep_fresh {g : DepGraph} {L done todo : List Nat} {i d : Nat} (h : RevOK g L)
+    (hL : L = done ++ i :: todo) (hd : d ∈ (g.node i).normalBuildDeps) :
+    d ∉ done ∧ d ≠ i := by
+  have hin := h.order _ _ _ hL d hd
+  have hn := h.nodup
+  rw [hL] at hn
+  rw [List.nodup_append] at hn
+  obtain ⟨_, h2, h3⟩ := hn
+  rw [List.nodup_cons] at h2
+  constructor
+  · intro hdd
+    exact h3 d hdd d (List.mem_cons_of_mem _ hin) rfl
+  · rintro rfl
+    exact h2.1 hin
+
+/-- a parent of an already processed package is already processed -/
+theorem RevOK.parent_done {g : DepGraph} {L done rest : List Nat} {p q : Nat} (h : RevOK g L)
+    (hL : L = done ++ rest) (hp : p ∈ done) (hq : q ∈ L) (hpq : p ∈ (g.node q).normalBuildDeps) :
+    q ∈ done := by
+  rw [hL, List.mem_append] at hq
+  rcases hq with hq | hq
+  · exact hq
+  · exfalso
+    obtain ⟨r1, r2, hr⟩ := List.append_of_mem hq
+    have hL' : L = (done ++ r1) ++ q :: r2 := by rw [hL, hr, List.append_assoc]
+    exact (h.dep_fresh hL' hpq).1 (List.mem_append_left _ hp)
+
+theorem RevOK.parent_done' {g : DepGraph} {L done todo : List Nat} {i q : Nat} (h : RevOK g L)
+    (hL : L = done ++ i :: todo) (hq : q ∈ L) (hpq : i ∈ (g.node q).normalBuildDeps) :
+    q ∈ done := by
+  have hL' : L = (done ++ [i]) ++ todo := by simp [hL]
+  have := h.parent_done hL' (List.mem_append_right _ (List.mem_singleton_self i)) hq hpq
+  rw [List.mem_append, List.mem_singleton] at this
+  rcases this with h1 | rfl
+  · exact h1
+  · exact absurd rfl (h.dep_fresh hL hpq).2
+
+theorem RevOK.not_done {g : DepGraph} {L done todo : List Nat} {i : Nat} (h : RevOK g L)
+    (hL : L = done ++ i :: todo) : i ∉ done := by
+  have hn := h.nodup
+  rw [hL, List.nodup_append] at hn
+  intro hi
+  exact hn.2.2 i hi i (List.mem_cons_self) rfl
+
+/-- induction along the parents-first order -/
+theorem rev_induction {L : List Nat} (P : Nat → Prop)
+    (step : ∀ done i todo, L = done ++ i :: todo → (∀ q ∈ done, P q) → P i) :
+    ∀ p ∈ L, P p := by
+  have aux : ∀ todo done, L = done ++ todo → (∀ q ∈ done, P q) → ∀ p ∈ L, P p := by
+    intro todo
+    induction todo with
+    | nil =>
+      intro done hL hd p hp
+      rw [hL, List.append_nil] at hp
+      exact hd p hp
+    | cons i todo ih =>
+      intro done hL hd
+      have hi := step done i todo hL hd
+      apply ih (done ++ [i]) (by simp [hL])
+      intro q hq
+      rw [List.mem_append, List.mem_singleton] at hq
+      rcases hq with hq | rfl
+      · exact hd q hq
+      · exact hi
+  exact aux L [] rfl (by simp)
+
+
+/-! ### monotonicity of the rule, the own-entry step -/
+
+theorem edgeDemand_mono (g : DepGraph) (m : Mapper) (pe : Option PolicyEntry) (d : Nat)
+    {x y : CSet} (h : CSet.sub x y) : CSet.sub (edgeDemand g m pe d x) (edgeDemand g m pe d y) := by
+  unfold edgeDemand
+  split
+  · exact CSet.sub_refl _
+  · exact h
+
+theorem nbVal_mono (g : DepGraph) (pol : Policy) (m : Mapper) (D D' : Nat → CSet) (p : Nat)
+    (h : ∀ q ∈ g.topo, p ∈ (g.node q).normalBuildDeps → CSet.sub (D q) (D' q)) :
+    CSet.sub (nbVal g pol m D p) (nbVal g pol m D' p) := by
+  intro b hb
+  rw [nbVal_testBit] at hb ⊢
+  obtain ⟨q, h1, h2, h3⟩ := hb
+  exact ⟨q, h1, h2, edgeDemand_mono g m _ p (h q h1 h2) b h3⟩
+
+/-- the rule for `p` applied to what has been pushed into `p` -/
+def ownVal (g : DepGraph) (pol : Policy) (m : Mapper) (p : Nat) (x : CSet) : CSet :=
+  match (g.policyOf pol p).bind (·.criteria) with
+  | some c => m.cl c
+  | none => (if (g.node p).isRoot then m.cl [1] else 0) ||| x
+
+theorem ruleRhs_eq_ownVal (g : DepGraph) (pol : Policy) (m : Mapper) (D : Nat → CSet) (p : Nat) :
+    ruleRhs g pol m D p = ownVal g pol m p (nbVal g pol m D p ||| devVal g pol m p) := by
+  rw [ruleRhs_eq, ownVal]
+  split <;> simp only [Nat.or_assoc]
+
+theorem ownVal_mono (g : DepGraph) (pol : Policy) (m : Mapper) (p : Nat) {x y : CSet}
+    (h : CSet.sub x y) : CSet.sub (ownVal g pol m p x) (ownVal g pol m p y) := by
+  unfold ownVal
+  split
+  · exact CSet.sub_refl _
+  · intro b hb
+    simp only [Nat.testBit_or, Bool.or_eq_true] at hb ⊢
+    rcases hb with hb | hb
+    · exact Or.inl hb
+    · exact Or.inr (h b hb)
+
+theorem ruleRhs_mono (g : DepGraph) (pol : Policy) (m : Mapper) (D D' : Nat → CSet) (p : Nat)
+    (h : ∀ q ∈ g.topo, p ∈ (g.node q).normalBuildDeps → CSet.sub (D q) (D' q)) :
+    CSet.sub (ruleRhs g pol m D p) (ruleRhs g pol m D' p) := by
+  rw [ruleRhs_eq_ownVal, ruleRhs_eq_ownVal]
+  apply ownVal_mono
+  intro b hb
+  simp only [Nat.testBit_or, Bool.or_eq_true] at hb ⊢
+  rcases hb with hb | hb
+  · exact Or.inl (nbVal_mono g pol m D D' p h b hb)
+  · exact Or.inr hb
+
+theorem ruleRhs_congr (g : DepGraph) (pol : Policy) (m : Mapper) (D D' : Nat → CSet) (p : Nat)
+    (h : ∀ q ∈ g.topo, p ∈ (g.node q).normalBuildDeps → D q = D' q) :
+    ruleRhs g pol m D p = ruleRhs g pol m D' p := by
+  apply CSet.sub_antisymm
+  · exact ruleRhs_mono g pol m D D' p (fun q h1 h2 => by rw [h q h1 h2]; exact CSet.sub_refl _)
+  · exact ruleRhs_mono g pol m D' D p (fun q h1 h2 => by rw [h q h1 h2]; exact CSet.sub_refl _)
+
+/-- the update of the package's own entry in `topoLoop` -/
+def ownStep (g : DepGraph) (pol : Policy) (m : Mapper) (i : Nat) (req : List CSet) :
+    Except Panic (List CSet) :=
+  match (g.policyOf pol i).bind (·.criteria) with
+  | some c =>
+    match m.fromList c with
+    | .error e => .error e
+    | .ok s => .ok (setAt req i (fun _ => s))
+  | none =>
+    if (g.node i).isRoot then
+      match m.fromList [1] with
+      | .error e => .error e
+      | .ok s => .ok (setAt req i (· ||| s))
+    else .ok req
+
+theorem topoLoop_cons (g : DepGraph) (pol : Policy) (m : Mapper) (i : Nat) (is : List Nat)
+    (req : List CSet) :
+    topoLoop g pol m (i :: is) req =
+      match ownStep g pol m i req with
+      | .error e => .error e
+      | .ok req1 =>
+        match pushDeps g m (g.policyOf pol i) (req1.getD i 0) (g.node i).normalBuildDeps req1 with
+        | .error e => .error e
+        | .ok req2 => topoLoop g pol m is req2 := rfl
+
+theorem ownStep_spec (g : DepGraph) (pol : Policy) (m : Mapper) (i : Nat) (req req1 : List CSet)
+    (h : ownStep g pol m i req = .ok req1) :
+    req1.length = req.length ∧
+    ∀ j, req1.getD j 0 =
+      if j = i ∧ j < req.length then ownVal g pol m i (req.getD j 0) else req.getD j 0 := by
+  unfold ownStep at h
+  unfold ownVal
+  split at h
+  · rename_i c hc
+    split at h
+    · cases h
+    · rename_i s hs
+      cases h
+      refine ⟨setAt_length _ _ _, fun j => ?_⟩
+      rw [setAt_getD, cl_of_ok hs]
+  · rename_i hc
+    split at h
+    · rename_i hroot
+      split at h
+      · cases h
+      · rename_i s hs
+        cases h
+        refine ⟨setAt_length _ _ _, fun j => ?_⟩
+        rw [setAt_getD]
+        simp only [hroot, if_true, cl_of_ok hs, Nat.or_comm]
+    · rename_i hroot
+      cases h
+      refine ⟨rfl, fun j => ?_⟩
+      simp only [hroot, Bool.false_eq_true, if_false, Nat.zero_or, ite_self]
+
+
+/-! ### the `topoLoop` invariant -/
+
+/-- invariant of `topoLoop` after the packages in `done` have been processed -/
+structure TopoInv (g : DepGraph) (pol : Policy) (m : Mapper) (done : List Nat) (req : List CSet) :
+    Prop where
+  len : req.length = g.nodes.length
+  fin : ∀ p ∈ done, req.getD p 0 = ruleRhs g pol m (fun i => req.getD i 0) p
+  pend : ∀ p, p ∉ done → ∀ b, (req.getD p 0).testBit b = true ↔
+    ((devVal g pol m p).testBit b = true ∨
+      ∃ q ∈ done, p ∈ (g.node q).normalBuildDeps ∧
+        (edgeDemand g m (g.policyOf pol q) p (req.getD q 0)).testBit b = true)
+
+theorem TopoInv.step {g : DepGraph} {pol : Policy} {m : Mapper} {L done todo : List Nat} {i : Nat}
+    {req req1 req2 : List CSet} (hr : RevOK g L) (hb : ∀ x ∈ L, x < g.nodes.length)
+    (hmem : ∀ x, x ∈ L ↔ x ∈ g.topo) (hL : L = done ++ i :: todo)
+    (inv : TopoInv g pol m done req)
+    (h1 : ownStep g pol m i req = .ok req1)
+    (h2 : pushDeps g m (g.policyOf pol i) (req1.getD i 0) (g.node i).normalBuildDeps req1 = .ok req2) :
+    TopoInv g pol m (done ++ [i]) req2 := by
+  obtain ⟨l1, v1⟩ := ownStep_spec g pol m i req req1 h1
+  obtain ⟨l2, v2⟩ := pushDeps_spec g m _ _ _ _ _ h2
+  have hiL : i ∈ L := by rw [hL]; simp
+  have hi : i < req.length := by rw [inv.len]; exact hb i hiL
+  have hnd : i ∉ done := hr.not_done hL
+  have hself : i ∉ (g.node i).normalBuildDeps := fun h => (hr.dep_fresh hL h).2 rfl
+  -- value at `i`
+  have hB : req2.getD i 0 = ownVal g pol m i (req.getD i 0) := by
+    rw [v2 i, if_neg (fun h => hself h.1), v1 i, if_pos ⟨rfl, hi⟩]
+  have h1i : req1.getD i 0 = req2.getD i 0 := by
+    rw [hB, v1 i, if_pos ⟨rfl, hi⟩]
+  -- values elsewhere
+  have hP : ∀ p, p ≠ i → req2.getD p 0 =
+      if p ∈ (g.node i).normalBuildDeps then
+        req.getD p 0 ||| edgeDemand g m (g.policyOf pol i) p (req2.getD i 0)
+      else req.getD p 0 := by
+    intro p hpi
+    have hv1p : req1.getD p 0 = req.getD p 0 := by rw [v1 p, if_neg (fun h => hpi h.1)]
+    rw [v2 p, h1i, l1, hv1p]
+    by_cases hp : p ∈ (g.node i).normalBuildDeps
+    · have : p < req.length := by
+        rw [inv.len]
+        apply hb
+        rw [hL]
+        exact List.mem_append_right _ (List.mem_cons_of_mem _ (hr.order _ _ _ hL p hp))
+      simp only [hp, this, and_self, if_true]
+    · simp only [hp, false_and, if_false]
+  have hC : ∀ q ∈ done, req2.getD q 0 = req.getD q 0 := by
+    intro q hq
+    have hqi : q ≠ i := fun h => hnd (h ▸ hq)
+    rw [hP q hqi, if_neg (fun h => (hr.dep_fresh hL h).1 hq)]
+  refine ⟨by rw [l2, l1, inv.len], ?_, ?_⟩
+  · intro p hp
+    rw [List.mem_append, List.mem_singleton] at hp
+    rcases hp with hp | rfl
+    · rw [hC p hp, inv.fin p hp]
+      apply ruleRhs_congr
+      intro q hq hpq
+      have hqd : q ∈ done := hr.parent_done (rest := i :: todo) hL hp ((hmem q).2 hq) hpq
+      exact (hC q hqd).symm
+    · rw [hB, ruleRhs_eq_ownVal]
+      congr 1
+      apply Nat.eq_of_testBit_eq
+      intro b
+      rw [Bool.eq_iff_iff, inv.pend p hnd b, Nat.testBit_or, Bool.or_eq_true, nbVal_testBit, or_comm]
+      apply or_congr_left
+      constructor
+      · rintro ⟨q, hq, hpq, hE⟩
+        refine ⟨q, (hmem q).1 (by rw [hL]; exact List.mem_append_left _ hq), hpq, ?_⟩
+        show (edgeDemand g m (g.policyOf pol q) p (req2.getD q 0)).testBit b = true
+        rw [hC q hq]; exact hE
+      · rintro ⟨q, hq, hpq, hE⟩
+        have hqd : q ∈ done := hr.parent_done' hL ((hmem q).2 hq) hpq
+        refine ⟨q, hqd, hpq, ?_⟩
+        have hE' : (edgeDemand g m (g.policyOf pol q) p (req2.getD q 0)).testBit b = true := hE
+        rw [hC q hqd] at hE'; exact hE'
+  · intro p hp b
+    rw [List.mem_append, List.mem_singleton, not_or] at hp
+    obtain ⟨hpd, hpi⟩ := hp
+    rw [hP p hpi]
+    have hex : ((∃ q ∈ done ++ [i], p ∈ (g.node q).normalBuildDeps ∧
+          (edgeDemand g m (g.policyOf pol q) p (req2.getD q 0)).testBit b = true) ↔
+        ((∃ q ∈ done, p ∈ (g.node q).normalBuildDeps ∧
+          (edgeDemand g m (g.policyOf pol q) p (req.getD q 0)).testBit b = true) ∨
+         (p ∈ (g.node i).normalBuildDeps ∧
+          (edgeDemand g m (g.policyOf pol i) p (req2.getD i 0)).testBit b = true))) := by
+      constructor
+      · rintro ⟨q, hq, hpq, hE⟩
+        rw [List.mem_append, List.mem_singleton] at hq
+        rcases hq with hq | rfl
+        · rw [hC q hq] at hE
+          exact Or.inl ⟨q, hq, hpq, hE⟩
+        · exact Or.inr ⟨hpq, hE⟩
+      · rintro (⟨q, hq, hpq, hE⟩ | ⟨hpq, hE⟩)
+        · refine ⟨q, List.mem_append_left _ hq, hpq, ?_⟩
+          rw [hC q hq]; exact hE
+        · exact ⟨i, List.mem_append_right _ (List.mem_singleton_self i), hpq, hE⟩
+    rw [hex]
+    by_cases hpn : p ∈ (g.node i).normalBuildDeps
+    · rw [if_pos hpn, Nat.testBit_or, Bool.or_eq_true, inv.pend p hpd b]
+      simp only [hpn, true_and, or_assoc]
+    · rw [if_neg hpn, inv.pend p hpd b]
+      simp only [hpn, false_and, or_false]
+
+
+theorem topoLoop_inv {g : DepGraph} {pol : Policy} {m : Mapper} {L : List Nat}
+    (hr : RevOK g L) (hb : ∀ x ∈ L, x < g.nodes.length) (hmem : ∀ x, x ∈ L ↔ x ∈ g.topo)
+    (todo : List Nat) :
+    ∀ (done : List Nat) (req req' : List CSet), L = done ++ todo → TopoInv g pol m done req →
+      topoLoop g pol m todo req = .ok req' → TopoInv g pol m L req' := by
+  induction todo with
+  | nil =>
+    intro done req req' hL inv h
+    simp only [topoLoop] at h
+    cases h
+    rw [hL, List.append_nil]
+    exact inv
+  | cons i todo ih =>
+    intro done req req' hL inv h
+    rw [topoLoop_cons] at h
+    split at h
+    · cases h
+    · rename_i req1 h1
+      split at h
+      · cases h
+      · rename_i req2 h2
+        exact ih (done ++ [i]) req2 req' (by simp [hL]) (inv.step hr hb hmem hL h1 h2) h
+
+theorem devVal_unlisted {g : DepGraph} (hv : ValidTopo g) (pol : Policy) (m : Mapper) (p b : Nat)
+    (h : (devVal g pol m p).testBit b = true) : p ∈ g.topo := by
+  rw [devVal_testBit] at h
+  obtain ⟨q, h1, h2, _⟩ := h
+  exact hv.dev q h1 p h2
+
+theorem TopoInv.init {g : DepGraph} (hv : ValidTopo g) {pol : Policy} {m : Mapper} {req : List CSet}
+    (h : devLoop g pol m g.nodes (List.replicate g.nodes.length 0) = .ok req) :
+    TopoInv g pol m [] req := by
+  obtain ⟨hl, hv0⟩ := devLoop_init g pol m req h
+  refine ⟨hl, by simp, fun p _ b => ?_⟩
+  rw [hv0 p b]
+  constructor
+  · rintro ⟨_, h⟩; exact Or.inl h
+  · rintro (h | ⟨q, hq, _⟩)
+    · exact ⟨hv.bound p (devVal_unlisted hv pol m p b h), h⟩
+    · simp at hq
+
+theorem resolve_inv {g : DepGraph} (hv : ValidTopo g) {pol : Policy} {m : Mapper} {req : List CSet}
+    (h : resolveRequirements g pol m = .ok req) : TopoInv g pol m g.topo.reverse req := by
+  unfold resolveRequirements at h
+  split at h
+  · cases h
+  · rename_i req0 h0
+    exact topoLoop_inv hv.revOK (fun x hx => hv.bound x (List.mem_reverse.1 hx))
+      (fun x => List.mem_reverse) g.topo.reverse [] req0 req (by simp) (TopoInv.init hv h0) h
+
+
+theorem topoLoop_length (g : DepGraph) (pol : Policy) (m : Mapper) (is : List Nat)
+    (req req' : List CSet) (h : topoLoop g pol m is req = .ok req') : req'.length = req.length := by
+  induction is generalizing req with
+  | nil =>
+    simp only [topoLoop] at h
+    cases h
+    rfl
+  | cons i is ih =>
+    rw [topoLoop_cons] at h
+    split at h
+    · cases h
+    · rename_i req1 h1
+      split at h
+      · cases h
+      · rename_i req2 h2
+        rw [ih req2 h, (pushDeps_spec g m _ _ _ _ _ h2).1, (ownStep_spec g pol m i req req1 h1).1]
+
+/-- in a valid order, the dependencies of a listed package are listed -/
+theorem ValidTopo.dep_listed {g : DepGraph} (hv : ValidTopo g) {q d : Nat} (hq : q ∈ g.topo)
+    (hd : d ∈ (g.node q).normalBuildDeps) : d ∈ g.topo := by
+  obtain ⟨pre, post, ht⟩ := List.append_of_mem hq
+  have := hv.order pre q post ht d hd
+  rw [ht]
+  exact List.mem_append_left _ this
+
 end Vet
